@@ -12,7 +12,7 @@ package geom
 //@ pred HasZ(t) = t == 1 || t == 3
 //@ pred HasM(t) = t == 2 || t == 3
 
-//@ prop C16,C20
+//@ prop C16,C20,C10
 
 //@ func CoordinatesType.Dimension
 //@   requires t < 4
